@@ -50,6 +50,9 @@ func Leaves() []NC {
 		NC{"LiteralValue{[\"a\"]}", func() schema.Constraint {
 			return schema.LiteralValue{Value: cty.ListVal([]cty.Value{cty.StringVal("a")})}
 		}},
+		NC{"LiteralValue{set}", func() schema.Constraint {
+			return schema.LiteralValue{Value: cty.SetVal([]cty.Value{cty.StringVal("a"), cty.StringVal("b")})}
+		}},
 		NC{"LiteralValue{tuple}", func() schema.Constraint {
 			return schema.LiteralValue{Value: cty.TupleVal([]cty.Value{cty.StringVal("a"), cty.True})}
 		}},
